@@ -4,4 +4,7 @@ go 1.23
 
 replace gopkg.in/typ.v4 => /repo
 
-require gopkg.in/typ.v4 v4.0.0-00010101000000-000000000000
+require (
+	github.com/anishathalye/porcupine v1.3.0
+	gopkg.in/typ.v4 v4.0.0-00010101000000-000000000000
+)
